@@ -199,6 +199,18 @@ def main():
             pass
         except Exception as e:
             fail('refuses-non-lp', {'case': 'min max(x)', 'raised': repr(e)})
+        # a piecewise-linear inequality (in first and in last place)
+        one = matrix(1.0, (1, 2))
+        for nm, cons in (('max(x) <= 1 first', [mmax(x) <= 1.0, x >= 0.0]),
+                         ('max(x) <= 1 last', [x >= 0.0, one * x == 1.0,
+                                               mmax(x) <= 1.0])):
+            try:
+                op(one * x, cons).tofile(os.path.join(d, 'n2.mps'))
+                fail('refuses-non-lp', {'case': nm, 'raised': None})
+            except TypeError:
+                pass
+            except Exception as e:
+                fail('refuses-non-lp', {'case': nm, 'raised': repr(e)})
     finally:
         for f in os.listdir(d):
             os.remove(os.path.join(d, f))
